@@ -281,7 +281,7 @@ def decide(sc: dict, res: dict, ctx=None) -> str | None:
 
 
 def plan(tier: str, seed: int) -> list[dict]:
-    n = 300 if tier == "quick" else 10000
+    n = 300 if tier == "quick" else 40000
     return [{"seed": seed * 1000 + k, "scripts": n} for k in range(16)]
 
 
